@@ -383,25 +383,30 @@ theorem inv_accept {st : State} (h : Inv st) (k : Nat) : Inv (doAccept st k).1 :
         · simp [Conn.release, Sub.holds, hph, f1]
       · split
         · exact h
-        · have h1 := inv_displace h s.conn s.meth s.subId
-          have hself : displace s.conn s.meth s.subId s = s := by simp [displace, f2]
-          have hl1 : lookup { st with subs := st.subs.map (displace s.conn s.meth s.subId) } k = some (s, cn) := by
-            simp [lookup, List.getElem?_map, hs, hself, hc]
-          refine inv_put h1 hl1 rfl rfl rfl ?_ ?_ ?_ ?_
-          · intro _
-            right
-            intro j t _ hj tin
-            simp only [List.getElem?_map] at hj
-            cases hj0 : st.subs[j]? with
-            | none => simp [hj0] at hj
-            | some t0 =>
-              simp [hj0] at hj; subst hj
-              obtain ⟨e, _, hk⟩ := displace_inTable tin
-              rw [e]; exact hk
-          · have := ok.table
-            constructor <;> simp_all
-          · rfl
-          · simp [Conn.push, Sub.holds, hph]
+        · split
+          · refine inv_put h hl rfl rfl rfl (by intro hh; simp [f2] at hh) ?_ ?_ ?_
+            · constructor <;> simp_all
+            · rfl
+            · simp [Conn.release, Conn.push, Sub.holds, hph, f1]
+          · have h1 := inv_displace h s.conn s.meth s.subId
+            have hself : displace s.conn s.meth s.subId s = s := by simp [displace, f2]
+            have hl1 : lookup { st with subs := st.subs.map (displace s.conn s.meth s.subId) } k = some (s, cn) := by
+              simp [lookup, List.getElem?_map, hs, hself, hc]
+            refine inv_put h1 hl1 rfl rfl rfl ?_ ?_ ?_ ?_
+            · intro _
+              right
+              intro j t _ hj tin
+              simp only [List.getElem?_map] at hj
+              cases hj0 : st.subs[j]? with
+              | none => simp [hj0] at hj
+              | some t0 =>
+                simp [hj0] at hj; subst hj
+                obtain ⟨e, _, hk⟩ := displace_inTable tin
+                rw [e]; exact hk
+            · have := ok.table
+              constructor <;> simp_all
+            · rfl
+            · simp [Conn.push, Sub.holds, hph]
 
 theorem inv_refuse {st : State} (h : Inv st) (k : Nat) (code : Int) (ph : Phase) (hph' : ph ≠ .accepted)
     (hpp : ph ≠ .pending) : Inv (doRefuse st k code ph).1 := by
@@ -675,6 +680,17 @@ theorem inv_unsubscribe {st : State} (h : Inv st) (c m x rid : Nat) :
 theorem inv_step {st : State} (h : Inv st) (op : Op) : Inv (step st op).1 := by
   cases op with
   | subscribe c m rid sid => exact inv_subscribe h c m rid sid
+  | cancelCall k =>
+    simp only [step, doCancelCall]
+    split
+    · exact h
+    · rename_i s cn hl
+      have ok := h.subOk s (lookup_mem hl)
+      split
+      · exact h
+      · refine inv_put h hl rfl rfl rfl (fun hh => Or.inl hh) ?_ rfl ?_
+        · exact ⟨ok.table, ok.clonesAcc, ok.unsubAcc, ok.closeAcc, ok.orphAcc, fun _ => rfl, ok.closeHandler, ok.displAcc⟩
+        · simp [Sub.holds]
   | accept k => exact inv_accept h k
   | reject k code => exact inv_refuse h k code .rejected (by decide) (by decide)
   | dropPending k => exact inv_refuse h k internalCode .dropped (by decide) (by decide)
@@ -857,6 +873,14 @@ theorem clean_step {st : State} (hi : Inv st) (h : Clean st) (op : Op) (hf : idF
             rcases hx with hx | rfl
             · exact h.noDispl x hx
             · rfl
+  | cancelCall k =>
+    simp only [step, doCancelCall]
+    split
+    · exact h
+    · rename_i s cn hl
+      split
+      · exact h
+      · exact clean_put h hl rfl rfl rfl (by simp [Sub.live]) (by simpa using h.noDispl s (lookup_mem hl))
   | accept k =>
     simp only [step, doAccept]
     split
@@ -873,8 +897,10 @@ theorem clean_step {st : State} (hi : Inv st) (h : Clean st) (op : Op) (hf : idF
         · exact clean_put h hl rfl rfl rfl (by simp [Sub.live, f2]) (by simpa using f6)
         · split
           · exact h
-          · rw [displace_id_of_clean h hs hph f2]
-            exact clean_put h hl rfl rfl rfl (by intro _; simp [Sub.live, hph]) (by simpa using f6)
+          · split
+            · exact clean_put h hl rfl rfl rfl (by simp [Sub.live, f2]) (by simpa using f6)
+            · rw [displace_id_of_clean h hs hph f2]
+              exact clean_put h hl rfl rfl rfl (by intro _; simp [Sub.live, hph]) (by simpa using f6)
   | reject k code =>
     simp only [step, doRefuse]
     split
